@@ -925,6 +925,15 @@ func (fr *Frame) vocabularyCall(s *State, callee *ssa.Function, args []*Term) (*
 		return c.Eq(args[0], args[1]), true
 	case "ite":
 		return c.Ite(args[0], args[1], args[2]), true
+	case "has":
+		if mt, ok := types.Unalias(callee.Signature.Params().At(0).Type()).Underlying().(*types.Map); ok {
+			ks, _ := mapKeys(x, mt)
+			x.mapTag(args[0], mt)
+			return c.And(c.Neq(args[0], c.Null()), c.Select(c.Select(x.mapPresent(s, ks), args[0]), args[1])), true
+		}
+		cfail("has(m, k) needs a map")
+	case "liteContains":
+		return c.UF("bart_lite_contains", SBool, c.RSub(args[0], 0), args[1]), true
 	case "same":
 		return c.Eq(args[0], args[1]), true
 	case "locked":
